@@ -33,7 +33,7 @@ RUNS = {
     # property: (quick, thorough) - fixed counts, so one seed explores the same runs anywhere
     "C01": (60000, 1000000), "C02": (50000, 800000), "C18": (40000, 600000),
     "C03": (15000, 250000), "C04": (120000, 2000000),
-    "C05": (120000, 2000000), "C06": (3500, 60000),
+    "C05": (90000, 1500000), "C06": (3500, 60000),
     "C19": (70000, 1200000), "C20": (100000, 1500000),
 }
 BLOCK_WALL_CAP_S = 1500
@@ -413,23 +413,36 @@ def cmd_replay(path):
 
 # ------------------------------------------------------------------- evidence
 RULES = {
-    "edit": "seeded editor sessions (edit ops by attribute and by key, chart list edits, saves, "
-            "restarts) against RefSimfile; distinct = (object kind, abstract model state shape, "
-            "op-kind bigram, save/restart entry); non-trivial = the session reached a save or a "
-            "state-changing op that the oracle judged inside the property's domain",
-    "load": "seeded MSD texts x entry points x stream behaviours against ref_load; distinct = "
-            "(entry point, stream kind, name kind, strict, outcome class, token-shape hash); "
-            "non-trivial = the text had at least one parameter or the outcome was an expected error",
-    "mutate": "seeded worlds x encodings x file-name configurations x edit scripts; for C06 every "
-              "storage call k of the fault-free trace x {err EIO/ENOSPC/EACCES, kill, short-write}, "
-              "every body position x exception class, every unserialisable/unencodable spoil; "
-              "distinct = (facade, format, encoding, output/backup configuration, trace-shape "
-              "hash, fault kind, errno, k | exit kind); non-trivial = the fault actually fired "
-              "(C06) / the run reached the save and was inside the domain (C05)",
-    "discover": "seeded directory trees x listing-order adversary x facade x loader options against "
-                "ref_discover/ref_assets; distinct = (tree-shape hash, listing mode, facade, "
-                "options, outcome class); non-trivial = the tree contained at least one candidate "
-                "entry for the rule being judged",
+    "edit": "seeded editor sessions on one live object: edit ops through attributes and keys, inherited "
+            "mapping mutators, chart-list edits, charts built by blank()/from_msd/empty constructor, "
+            "identity hazards (shared / interned string objects), saves (str, StringIO, plain writer, "
+            "TextIOWrapper over the simulated disk with short writes), restarts through every loader, "
+            "saves that fail part-way and failing str() of other objects as history, a bystander object; "
+            "judged against RefSimfile/ref_emit. distinct = (format, save kind, item/chart counts, "
+            "VERSION-first, key-only present, notes keys, abstract state-shape hash) for saves, "
+            "(entry, counts) for restarts, (object kind, previous op, op, key/attr, alias-presence "
+            "vector, outcome) for C18 steps; non-trivial = a save/restart/step that the oracle judged "
+            "inside the property's domain",
+    "load": "seeded MSD texts (and corrupted corpus files) x entry points x stream behaviours (short "
+            "reads, chunk sizes, buffer sizes, names of every kind, four facades) with a decoy text loaded "
+            "first, against ref_load on the trusted tokenizer; C04: stored bytes damaged by corrupt-stored "
+            "faults, load / (failed save) / save / restart / load / save history. distinct = (entry point, "
+            "strict, outcome class, name type, item/chart counts, key-shape hash) resp. (format, facade, "
+            "strict, corruption kind, counts, key-only, key-shape hash); non-trivial = judged outcome "
+            "(a model comparison or an expected error)",
+    "mutate": "seeded worlds x encodings x file-name configurations x edit scripts x four facades; for "
+              "C06 every storage call k of the fault-free trace x {err EIO/ENOSPC/EACCES, kill, torn write}, "
+              "err@k followed by err/kill at k+1/k+2, every body position x 7 exception classes, every "
+              "unserialisable/unencodable spoil, invariants raised inside the disk; distinct = (facade, "
+              "format, encoding, output/backup configuration, trace-shape hash, fault kind, errno, k | "
+              "exit kind | spoil); non-trivial = the fault actually fired (C06) / the run reached the "
+              "save inside the domain or an expected refusal/error (C05)",
+    "discover": "seeded directory trees x listing-order adversary (sorted/stable/reshuffled) x four facades "
+                "x loader options x path spellings, rescanned after the tree changed, objects kept alive "
+                "and asked again; against ref_discover/ref_assets (plain string operations). distinct = "
+                "(facade, listing mode, simfile counts, options, spelling, extension-shape hash) per "
+                "directory, (kind, branch, answer class, admissible count, entries hash) per asset lookup; "
+                "non-trivial = a directory / lookup / pack that was judged",
 }
 COMPONENTS = {
     "real": ["simfile (all of /repo/simfile, current working tree)", "msdparser 2.0.0",
